@@ -607,7 +607,7 @@ def _dtype_of(v):
         s = v.dotted.split(".")[-1]
     else:
         return None
-    if s.startswith("int") or s.startswith("uint"):
+    if s.startswith("int") or s.startswith("uint") or s in ("long", "longlong", "short", "byte", "ulong", "ulonglong"):
         return "int"
     if s.startswith("float"):
         return "float"
@@ -935,6 +935,9 @@ def _isinst(ex, v, t):
                         return True if v.dtype == "float" else (False if v.dtype == "int" else None)
                     return True
                 return False
+            if v.pytype == "arraylike" and d in ("numpy.ndarray", "pandas.DataFrame", "pandas.Series", "builtins.tuple", "builtins.list"):
+                # some array-like container (list, tuple, ndarray, frame): which one is not known
+                return None
             if d == "numpy.ndarray":
                 return v.pytype == "ndarray"
             if d == "pandas.DataFrame":
@@ -1252,7 +1255,7 @@ def _np_array(ex, args, kwargs, node):
             return Num(v.nf, v.shape, dt or v.dtype, "ndarray", arr=v.arr, cond=v.cond, meta={"alias_of": v})
         if v.shape == ():
             return Num(v.nf, (), dt or v.dtype, "ndarray", cond=v.cond, meta={"zero_dim": True, **v.meta})
-        return Num(v.nf, v.shape, dt or v.dtype, v.pytype, arr=v.arr, cond=v.cond, meta=dict(v.meta, alias_of=v))
+        return Num(v.nf, v.shape, dt or v.dtype, "ndarray" if v.pytype == "arraylike" else v.pytype, arr=v.arr, cond=v.cond, meta=dict(v.meta, alias_of=v))
     if isinstance(v, (ListV, TupleV)):
         if getattr(v, "opaque", False):
             el = v.elem if isinstance(v, ListV) else None
@@ -1642,6 +1645,15 @@ def _np_cov(ex, args, kwargs, node):
 def _np_slogdet(ex, args, kwargs, node):
     v = _arr(ex, args[0], node)
     return TupleV([ex.mk("detsign", v.nf, shape=(), dtype="float"), ex.mk("logabsdet", v.nf, shape=(), dtype="float")])
+
+
+@model("numpy.linalg.det")
+def _np_det(ex, args, kwargs, node):
+    # det(A) as a value: sign(det A) = detsign(A), log(det A) = logabsdet(A) where positive (nf_log).  The determinant
+    # itself scales as c^(2p) with the data: the event lets scale-sensitive rules see that it was materialised.
+    v = _arr(ex, args[0], node)
+    ex.emit("det_materialised", node, operand=v)
+    return ex.mk("det", v.nf, shape=(), dtype="float")
 
 
 @model("numpy.linalg.inv")
